@@ -10,6 +10,7 @@ mod c06h;
 mod c07;
 mod c08;
 mod c08a;
+mod c08c;
 mod consts;
 mod gad;
 mod c09;
